@@ -747,6 +747,47 @@ fn main() {
           }
         }
       }
+      "batch_order" => {
+        // batch_order <sndbatch_count> <sndbatch_bytes> <size>...: public API, PUSH -> PULL over tcp on a current-thread
+        // runtime (a burst of sends that find room in the pipe is queued before the session assembles its first batch);
+        // payloads carry their sequence number; prints the order in which they arrive
+        let count: i32 = it.next().unwrap().parse().unwrap();
+        let bytes_: i32 = it.next().unwrap().parse().unwrap();
+        let sizes: Vec<usize> = it.map(|x| x.parse().unwrap()).collect();
+        let rt = tokio::runtime::Builder::new_current_thread().enable_all().build().unwrap();
+        let order = rt.block_on(async move {
+          let ctx = rzmq::Context::new().unwrap();
+          let push = ctx.socket(rzmq::SocketType::Push).unwrap();
+          let pull = ctx.socket(rzmq::SocketType::Pull).unwrap();
+          push.set_option(rzmq::socket::options::SNDBATCH_COUNT, count).await.unwrap();
+          push.set_option(rzmq::socket::options::SNDBATCH_BYTES, bytes_).await.unwrap();
+          pull.set_option(rzmq::socket::options::RCVTIMEO, 3000i32).await.unwrap();
+          pull.bind("tcp://127.0.0.1:0").await.unwrap();
+          let ep = String::from_utf8(pull.get_option(rzmq::socket::options::LAST_ENDPOINT).await.unwrap()).unwrap();
+          push.connect(&ep).await.unwrap();
+          tokio::time::sleep(Duration::from_millis(300)).await;
+          for (seq, sz) in sizes.iter().enumerate() {
+            let mut v = vec![0u8; (*sz).max(2)];
+            v[0] = (seq >> 8) as u8;
+            v[1] = seq as u8;
+            push.send(rzmq::Msg::from_vec(v)).await.unwrap();
+          }
+          let mut order = Vec::new();
+          for _ in 0..sizes.len() {
+            match pull.recv().await {
+              Ok(m) => {
+                let d = m.data().unwrap_or(&[]);
+                order.push(((d[0] as usize) << 8) | d[1] as usize);
+              }
+              Err(_) => break,
+            }
+          }
+          order
+        });
+        let in_order = order.windows(2).all(|w| w[0] < w[1]);
+        println!("batch_order received={:?} {}", order, if in_order { "in order" } else { "REORDERED" });
+        std::process::exit(0);
+      }
       "router_send_blocks" => {
         // public API only: ROUTER (ROUTER_MANDATORY, SNDHWM=1, SNDTIMEO as given: -1 = wait for ever) sends 1 MiB
         // messages to a raw DEALER peer that completes the handshake and then never reads. Once a send blocks we wait
@@ -821,6 +862,61 @@ fn main() {
           format!("sent_before_block={} {}", sent, outcome)
         });
         println!("router_send_blocks sndtimeo={} {}", sndtimeo, res);
+        std::process::exit(0);
+      }
+      "last_message_then_close" => {
+        // public API only: a PULL socket listens on TCP; a raw PUSH peer completes the handshake, later writes <n> data
+        // frames in one write and closes the connection at once (data and FIN reach the reader together).
+        let n: usize = it.next().unwrap().parse().unwrap();
+        let rt = tokio::runtime::Builder::new_multi_thread().worker_threads(2).enable_all().build().unwrap();
+        let res = rt.block_on(async move {
+          use std::io::{Read, Write};
+          let ctx = rzmq::Context::new().unwrap();
+          let pull = ctx.socket(rzmq::SocketType::Pull).unwrap();
+          pull.set_option(rzmq::socket::options::RCVTIMEO, 1500i32).await.unwrap();
+          pull.bind("tcp://127.0.0.1:0").await.unwrap();
+          let ep = String::from_utf8(pull.get_option(rzmq::socket::options::LAST_ENDPOINT).await.unwrap()).unwrap();
+          let addr = ep.trim_start_matches("tcp://").to_string();
+          let mut greeting = vec![0xFFu8, 0, 0, 0, 0, 0, 0, 0, 0, 0x7F, 3, 1];
+          let mut mech = b"NULL".to_vec();
+          mech.resize(20, 0);
+          greeting.extend_from_slice(&mech);
+          greeting.push(0);
+          greeting.extend_from_slice(&[0u8; 31]);
+          let mut ready = b"\x05READY\x0bSocket-Type\x00\x00\x00\x04PUSH".to_vec();
+          let mut hs = greeting.clone();
+          hs.push(0x04);
+          hs.push(ready.len() as u8);
+          hs.append(&mut ready);
+          let peer = tokio::task::spawn_blocking(move || {
+            let mut s = std::net::TcpStream::connect(addr).unwrap();
+            s.set_nodelay(true).ok();
+            s.write_all(&hs).unwrap();
+            let mut buf = [0u8; 64];
+            let _ = s.read_exact(&mut buf);
+            let mut hdr = [0u8; 2];
+            let _ = s.read_exact(&mut hdr);
+            let mut body = vec![0u8; hdr[1] as usize];
+            let _ = s.read_exact(&mut body);
+            std::thread::sleep(Duration::from_millis(300));
+            let mut data = Vec::new();
+            for i in 0..n {
+              data.extend_from_slice(&[0x00u8, 0x02, b'm', b'0' + (i as u8)]);
+            }
+            s.write_all(&data).unwrap();
+            drop(s); // FIN right behind the data
+          });
+          let mut got = Vec::new();
+          for _ in 0..n {
+            match pull.recv().await {
+              Ok(m) => got.push(String::from_utf8_lossy(m.data().unwrap_or(&[])).into_owned()),
+              Err(_) => break,
+            }
+          }
+          let _ = peer.await;
+          got
+        });
+        println!("last_message_then_close sent={} received={:?} {}", n, res, if res.len() == n { "all delivered" } else { "LOST" });
         std::process::exit(0);
       }
       "actor_early_data" => {
